@@ -237,6 +237,20 @@ CLAIMED['C12'] = dict(
    technique="Coq proof (induction over draw lists, interval reasoning over Reals) + vm_compute correspondence of the float instance",
    ref="DESIGN.md section 3, C12")
 
+CLAIMED['C11'] = dict(
+   text="Theorems: the composite density NestedTransdimensional reports contains the index-jump term, birth terms only when the dimension "
+        "grows and then exactly for the newly active components, in-model terms for the components active on both sides (every numeric "
+        "instance); C(N-k,d) C(N,k) = C(k+d,d) C(N,k+d); hence, with qt the true law of the composite jump (which also contains the uniform "
+        "choice of the d components switched) the step's acceptance ratio is f(x') C(x) qt(x|x') / (f(x) C(x') qt(x'|x)) for births and "
+        "for deaths of any multiplicity, and detailed balance holds for f/C. The index-jump law itself is C02's bounded-discrete theorem. "
+        "Tie: every step of real transdimensional chains (2-5 components, multiplicities up to 4, successive on/off, three birth laws, "
+        "five in-model families incl. a non-symmetric one, betas < 1): both composite densities and the recorded acceptance ratio "
+        "against td_logpdf / bd_logpmf1 / the MH kernel under vm_compute, and directly against the formula evaluated with scipy and "
+        "exact binomials.",
+   note=LAW_NOTE + "That numpy's choice(replace=False) is uniform over d-subsets is a premise.",
+   technique="Coq proof over Reals (factorial algebra, exp/ln, Rmin) + vm_compute correspondence of the float instance",
+   ref="DESIGN.md section 3, C11")
+
 PENDING_REASON = "not yet claimed: model/theorems for this property are still being built (see DESIGN.md section 3); nothing is asserted about it"
 
 def main():
